@@ -163,10 +163,12 @@ def scen_nonblocking(cfg):
             return res
         k = c.q_expected_select[0][1]
         if jitter == "buffer":
-            # expected-time rule: longest prefix with seq/rate + phase <= ts_step and arrival <= ts_step
-            conds = [_allv(V, [Fraction(s0 + i, rate_out) + phase <= ts_step, ts[i] <= ts_step]) if V.symbolic else ((s0 + i) / rate_out + phase <= ts_step and ts[i] <= ts_step) for i in range(n)]
+            # expected-time rule: longest prefix with seq/rate + phase <= ts_step and arrival <= ts_step; the property's clauses are cumulative:
+            # a skipped connection is consumed strictly after its arrival under BUFFER as well
+            arr = (lambda t: t < ts_step) if skip else (lambda t: t <= ts_step)
+            conds = [_allv(V, [Fraction(s0 + i, rate_out) + phase <= ts_step, arr(ts[i])]) if V.symbolic else ((s0 + i) / rate_out + phase <= ts_step and arr(ts[i])) for i in range(n)]
             pre = [_allv(V, conds[:j + 1]) if V.symbolic else all(conds[:j + 1]) for j in range(n)]
-            res["BUFFER: takes exactly the longest prefix whose expected and actual arrival are <= step start"] = _allv(V, [pre[j] if j < k else _not(V, pre[j]) for j in range(n)][: k + 1])
+            res["BUFFER: takes exactly the longest prefix whose expected and actual arrival are <= step start (arrival < step start if skip)"] = _allv(V, [pre[j] if j < k else _not(V, pre[j]) for j in range(n)][: k + 1])
         else:
             taken = [(t < ts_step) if skip else (t <= ts_step) for t in ts]
             res["LATEST: takes exactly the queued messages with arrival <= step start (< if skip)"] = _allv(V, [taken[j] if j < k else _not(V, taken[j]) for j in range(n)])
